@@ -311,6 +311,16 @@ macro_rules | `(tactic| pres_prim) => `(tactic| with_reducible first
   | exact fpres_closeUpvalues _ | exact fpres_readUpvalueLoc _ | exact fpres_writeUpvalueLoc _ _
   | exact fpres_guardVal _ | exact fpres_unguardVal _)
 
+section framerows
+variable {R : VmState → VmState → Prop} [FrameRel R]
+theorem fpres_guardRows (es : List (Val × Val)) : Pres R (guardRows es) := by
+  unfold guardRows; pres_auto
+theorem fpres_unguardRows (es : List (Val × Val)) : Pres R (unguardRows es) := by
+  unfold unguardRows; pres_auto
+end framerows
+macro_rules | `(tactic| pres_prim) => `(tactic| with_reducible first
+  | exact fpres_guardRows _ | exact fpres_unguardRows _)
+
 section framecompound
 variable {R : VmState → VmState → Prop} [FrameRel R]
 
